@@ -163,8 +163,8 @@ var Prims = []string{"bool", "byte", "uint8", "uint16", "int16", "uint32", "int3
 
 var EnumBases = []string{"uint8", "uint16", "int16", "uint32", "int32", "uint64", "int64"}
 
-func prim(n string) *Type  { return &Type{Kind: "prim", Name: n} }
-func arr(t *Type) *Type    { return &Type{Kind: "array", Elem: t} }
+func prim(n string) *Type        { return &Type{Kind: "prim", Name: n} }
+func arr(t *Type) *Type          { return &Type{Kind: "array", Elem: t} }
 func mp(k string, v *Type) *Type { return &Type{Kind: "map", Key: k, Elem: v} }
 
 func enumName(base string) string { return "E" + strings.ToUpper(base[:1]) + base[1:] }
@@ -381,11 +381,12 @@ var primGo = map[string]string{"bool": "bool", "byte": "byte", "uint8": "uint8",
 var primWidth = map[string]int{"bool": 1, "byte": 1, "uint8": 1, "uint16": 2, "int16": 2, "uint32": 4, "int32": 4, "uint64": 8, "int64": 8, "float32": 4, "float64": 8, "guid": 16, "date": 8}
 
 type gen struct {
-	sb   strings.Builder
-	s    *Schema
-	o    Opts
-	tmp  int
-	tier Tier
+	cross bool // emit cross-version equality (calls xEq_ instead of vEq_)
+	sb    strings.Builder
+	s     *Schema
+	o     Opts
+	tmp   int
+	tier  Tier
 }
 
 func (g *gen) p(format string, a ...interface{}) { fmt.Fprintf(&g.sb, format, a...) }
@@ -506,7 +507,11 @@ func (g *gen) eq(t *Type, a, b, ind string) {
 	case "enum":
 		g.p("%sok = vstub.And(ok, %s == %s)\n", ind, a, b)
 	case "rec":
-		g.p("%sok = vstub.And(ok, vEq_%s(%s, %s))\n", ind, t.Name, a, b)
+		if g.cross {
+			g.p("%sok = vstub.And(ok, xEq_%s(%s, %s))\n", ind, t.Name, a, b)
+		} else {
+			g.p("%sok = vstub.And(ok, vEq_%s(%s, %s))\n", ind, t.Name, a, b)
+		}
 	case "array":
 		i := g.fresh("i")
 		g.p("%sif len(%s) != len(%s) {\n%s\tok = false\n%s} else {\n", ind, a, b, ind, ind)
